@@ -151,6 +151,11 @@ type Spec struct {
 	Extra      RunFunc
 	ExtraEvery int
 	ExtraNote  string
+	// SchedLabels names the tape labels that are scheduling / fault-placement decisions
+	// (which parked call or goroutine proceeds next, which operation comes next, ...).
+	// The number of distinct value sequences of these draws is reported as
+	// distinct_schedules in the evidence.
+	SchedLabels []string
 	// SelfCheckRuns overrides how many runs are repeated for the determinism self-check
 	SelfCheckRuns int
 }
